@@ -874,6 +874,10 @@ class SymInt(SymNum):
 
 def sym_int(x, *args):
     "replacement for builtin int in verde module globals (truncation toward zero)"
+    if hasattr(x, "symval"):
+        x = x.symval  # a text token denoting a symbolic number (fake file)
+        if not isinstance(x, (SymNum, int)):
+            raise ValueError("invalid literal for int() with base 10")
     if isinstance(x, SymInt):
         return x
     if isinstance(x, SymReal):
@@ -884,6 +888,8 @@ def sym_int(x, *args):
 
 def sym_float(x):
     "replacement for builtin float in module globals"
+    if hasattr(x, "symval"):
+        x = x.symval
     if isinstance(x, SymNum):
         return SymReal(_r(x.t))
     return float(x)
